@@ -1,7 +1,7 @@
 (* C13 — RISE/vRISE supply: 1:1 conversion, capped emission.
    Only statements, each closed by [exact]; proofs live in Econ/*Proofs.v. *)
 From Coq Require Import ZArith.
-From Sunrise Require Import Base.Outcome Base.Dec Base.Bank Econ.Mint Econ.Convert Econ.MintProofs Econ.ConvertProofs.
+From Sunrise Require Import Base.Outcome Base.Dec Base.Bank Econ.Mint Econ.Convert Econ.Ban Econ.MintProofs Econ.ConvertProofs.
 Local Open Scope Z_scope.
 
 (* Conversion bond -> fee through Msg/Convert: exactly 1:1, atomic, nothing else changes. *)
@@ -65,6 +65,15 @@ Theorem C13_mint_split_exact : forall i o,
   mo_bond_minted o = minted o - mo_fee_minted o.
 Proof. exact mint_split_exact. Qed.
 Print Assumptions C13_mint_split_exact.
+
+(* transfer ban, bank level: a plain send of a send-disabled denom is rejected with no change.
+   The clause "whichever message requests it" (pool deposits, swaps, proxy/lockup sends, IBC) is
+   NOT a theorem: those handlers are exercised by the ban scenarios of the harness and monitored
+   (no user account gains the token). PARTIAL. *)
+Theorem C13_send_disabled_rejected : forall enabled b from to d amt,
+  enabled d = false -> msg_send enabled b from to d amt = (b, Err E_SEND_DISABLED).
+Proof. exact msg_send_disabled. Qed.
+Print Assumptions C13_send_disabled_rejected.
 
 (* non-vacuity: a concrete invocation meeting every hypothesis above and minting > 0 *)
 Example C13_nonvacuous :
